@@ -162,7 +162,7 @@ func (c *Ctx) locateSite(s *bceSite) {
 			if ce, ok := best.(*ast.CallExpr); ok {
 				s.Expr = "inlined " + s.Callee + " at " + exprText(c.P.Fset, ce.Fun) + "(...)"
 			} else if best != nil {
-				s.Expr = exprText(c.P.Fset, best)
+				s.Expr = normExpr(c.P.Fset, pk.TypesInfo, best)
 			} else {
 				s.Expr = fmt.Sprintf("<expression at column %d>", s.Col)
 			}
@@ -275,4 +275,86 @@ func calleePath(info *types.Info, call *ast.CallExpr) string {
 		return obj.Pkg().Path() + "." + obj.Name()
 	}
 	return obj.Name()
+}
+
+// normExpr renders an expression with local variables and parameters renamed
+// to v1, v2, ... in order of first appearance, so that the key of a reviewed
+// site survives the renaming of a local. Fields, constants, package-level
+// names and literals are kept.
+func normExpr(fset *token.FileSet, info *types.Info, n ast.Node) string {
+	names := map[types.Object]string{}
+	var b bytes.Buffer
+	var w func(e ast.Node)
+	w = func(e ast.Node) {
+		switch x := e.(type) {
+		case *ast.Ident:
+			obj := info.Uses[x]
+			if obj == nil {
+				obj = info.Defs[x]
+			}
+			if v, ok := obj.(*types.Var); ok && !v.IsField() && v.Parent() != nil && v.Pkg() != nil && v.Parent() != v.Pkg().Scope() {
+				nm, seen := names[obj]
+				if !seen {
+					nm = fmt.Sprintf("v%d", len(names)+1)
+					names[obj] = nm
+				}
+				b.WriteString(nm)
+				return
+			}
+			b.WriteString(x.Name)
+		case *ast.IndexExpr:
+			w(x.X)
+			b.WriteString("[")
+			w(x.Index)
+			b.WriteString("]")
+		case *ast.SliceExpr:
+			w(x.X)
+			b.WriteString("[")
+			if x.Low != nil {
+				w(x.Low)
+			}
+			b.WriteString(":")
+			if x.High != nil {
+				w(x.High)
+			}
+			if x.Max != nil {
+				b.WriteString(":")
+				w(x.Max)
+			}
+			b.WriteString("]")
+		case *ast.BinaryExpr:
+			w(x.X)
+			b.WriteString(x.Op.String())
+			w(x.Y)
+		case *ast.ParenExpr:
+			b.WriteString("(")
+			w(x.X)
+			b.WriteString(")")
+		case *ast.SelectorExpr:
+			w(x.X)
+			b.WriteString("." + x.Sel.Name)
+		case *ast.UnaryExpr:
+			b.WriteString(x.Op.String())
+			w(x.X)
+		case *ast.StarExpr:
+			b.WriteString("*")
+			w(x.X)
+		case *ast.CallExpr:
+			w(x.Fun)
+			b.WriteString("(")
+			for i, a := range x.Args {
+				if i > 0 {
+					b.WriteString(",")
+				}
+				w(a)
+			}
+			b.WriteString(")")
+		case *ast.BasicLit:
+			b.WriteString(x.Value)
+		default:
+			b.WriteString(exprText(fset, e))
+		}
+	}
+	w(n)
+	return b.String()
 }
